@@ -155,7 +155,7 @@ def check(case):
                 return Outcome(inconclusive="resource", features=feats)
             except Exception as exc:
                 failure = Failure("crash", "CNF/DIMACS export: %r" % exc, sig="dimacs|" + plrun.exc_signature(exc))
-    has_rule = any(s[0] == "rule" or (s[0] == "ad" and s[2]) for s in prog)
+    has_rule = any(s[0] in ("rule", "rule_or") or (s[0] == "ad" and s[2]) for s in prog)
     has_prob = any(s[0] in ("pfact", "ad") for s in prog)
     return Outcome(nontrivial=has_rule and has_prob and base[0] == "ok", features=sorted(feats), failure=failure,
                    classes=[base[0] if base[0] != "error" else "error:" + base[1]],
@@ -172,6 +172,7 @@ def _recursive_with_ad(case, failure):
 
 
 KNOWN_CLASSES = {
+    "cyclic_or_complement": lambda case, failure: gp.cyclic_body_disjunction_with_complement(case["prog"]),
     "recursive_with_ad": _recursive_with_ad,
     "negcycle_fp": lambda case, failure: gp.neg_on_cyclic_goal_under_active_cycle(case["prog"]),
     "neg_under_cycle": lambda case, failure: gp.neg_under_active_cycle(case["prog"]),
